@@ -92,30 +92,13 @@ def control_code_rule(ctx, rule_id, reference=None):
     return r
 
 
-def run(ctx):
+def section_order_rule(ctx, rule_id, reference=None):
+    """POLARITY rule (shared with C16: several progress bars on sections of one output). Returns the scanning method."""
     p, cg = ctx.p, ctx.cg
     sec = ctx.cls("clikit.api.io.section_output.SectionOutput")
-    out_cls = ctx.cls("clikit.api.io.output.Output")
-    stream_cls = ctx.cls("clikit.api.io.output_stream.OutputStream")
-
-    control_code_rule(ctx, "C15-R1", reference=1)
-
-    # ---------------------------------------------------------------- R2
-    r = ctx.rule("C15-R2", "RANGE", "on a section output a line ends in exactly one newline, ANSI or not", reference=2)
-    ns = NewlineSummary(ctx, stream_cls, out_cls)
-    for name in ("write_line", "overwrite"):
-        m = p.lookup_method(sec, name)
-        if m is None:
-            continue
-        res = ns.summary(m, sec)
-        if res == {1}:
-            r.ok("SectionOutput.%s: newlines %s" % (name, sorted(res)))
-        else:
-            r.fail(m, m.node, "SectionOutput.%s newlines %s" % (name, sorted(res)), "SectionOutput.%s can write its text followed by %s newline(s): plain lines run together" % (name, sorted(res)))
-
     # ---------------------------------------------------------------- R3
-    r = ctx.rule("C15-R3", "POLARITY", "sections below this one are erased and re-printed in creation order: newest-first "
-                 "registration x forward scan until self x reversal", reference=3)
+    r = ctx.rule(rule_id, "POLARITY", "sections below this one are erased and re-printed in creation order: newest-first "
+                 "registration x forward scan until self x reversal", reference=reference)
     init = sec.methods["__init__"]
     reg = None
     for c in q.calls(init):
@@ -174,6 +157,32 @@ def run(ctx):
         r.ok("erased sections are re-printed oldest first (%s)" % desc)
     else:
         r.fail(pop, pop.node, "order: " + desc, "the sections below are re-printed in reverse creation order (%s)" % desc)
+    return pop
+
+
+def run(ctx):
+    p, cg = ctx.p, ctx.cg
+    sec = ctx.cls("clikit.api.io.section_output.SectionOutput")
+    out_cls = ctx.cls("clikit.api.io.output.Output")
+    stream_cls = ctx.cls("clikit.api.io.output_stream.OutputStream")
+
+    control_code_rule(ctx, "C15-R1", reference=1)
+
+    # ---------------------------------------------------------------- R2
+    r = ctx.rule("C15-R2", "RANGE", "on a section output a line ends in exactly one newline, ANSI or not", reference=2)
+    ns = NewlineSummary(ctx, stream_cls, out_cls)
+    for name in ("write_line", "overwrite"):
+        m = p.lookup_method(sec, name)
+        if m is None:
+            continue
+        res = ns.summary(m, sec)
+        if res == {1}:
+            r.ok("SectionOutput.%s: newlines %s" % (name, sorted(res)))
+        else:
+            r.fail(m, m.node, "SectionOutput.%s newlines %s" % (name, sorted(res)), "SectionOutput.%s can write its text followed by %s newline(s): plain lines run together" % (name, sorted(res)))
+
+    # ---------------------------------------------------------------- R3
+    pop = section_order_rule(ctx, "C15-R3", reference=3)
 
     # ---------------------------------------------------------------- R4
     r = ctx.rule("C15-R4", "SIBLING", "what was recorded is re-printed as recorded: content is recorded with the indentation already applied, so every "
